@@ -3,6 +3,7 @@ package liquid
 // C19 — custom delimiters are equivalent to the defaults, hyphens included.
 
 import (
+	"github.com/osteele/liquid/render"
 	"strings"
 
 	nd "github.com/osteele/liquid/zz_verifnd"
@@ -151,12 +152,14 @@ func VerifC19Punct() {
 	nd.Assume(!strings.HasPrefix(tr, "-") && !strings.HasPrefix(tl[1:], "-") && !strings.Contains(tr, "=") && !strings.Contains(tr, "<") && !strings.Contains(tl[1:], "<"))
 	nd.Assume(tl != tr && !strings.HasPrefix(tl, tr) && !strings.HasPrefix(tr, tl))
 	src := "a" + tl + " if x " + tr + "A" + tl + " else " + tr + "B" + tl + " endif " + tr + "|" + tl + "- assign y = 5 -" + tr + " «« y »» "
+	// raw and comment blocks written tight against the delimiters, with delimiter-like bodies
+	src += tl + "raw" + tr + "«« z" + tl + "endraw" + tr + tl + "comment" + tr + "»»" + tl + "endcomment" + tr
 	out, err := NewEngine().Delims("««", "»»", tl, tr).ParseAndRenderString(src, Bindings{"x": true})
 	ref, rerr := NewEngine().ParseAndRenderString("a{% if x %}A{% else %}B{% endif %}|{%- assign y = 5 -%} {{ y }} ", Bindings{"x": true})
 	_ = ref
 	_ = rerr
 	nd.Assert(err == nil, "punctuation-delimiters-parse")
-	nd.Assert(out == "aA|5 " || out == "aB|5 ", "punctuation-delimiters-render")
+	nd.Assert(out == "aA|5 «« z" || out == "aB|5 «« z", "punctuation-delimiters-render")
 	nd.Reach("C19.punct")
 }
 
@@ -207,4 +210,24 @@ func VerifC19Include() {
 	}
 	nd.Assert(r1 == nil && r2 == nil && o1 == back, "included-template-uses-the-engines-delimiters")
 	nd.Reach("C19.include")
+}
+
+// VerifC19ExpandTagArg: a registered tag that expands its argument as a template (Jekyll's
+// {% include {{ page.var }} %}) sees the configured object delimiters there too: the respelled
+// template renders as the default spelling does on a default engine, and the default delimiter
+// strings are ordinary text in a custom engine's tag argument.
+func VerifC19ExpandTagArg() {
+	q := c19Quads[1+nd.Choice(len(c19Quads)-1)]
+	reg := func(e *Engine) *Engine {
+		e.RegisterTag("echoarg", func(c render.Context) (string, error) { return c.ExpandTagArg() })
+		return e
+	}
+	x := nd.IntIn(0, 9)
+	b := Bindings{"x": x}
+	t := []string{"S{% echoarg a {{ x }} b %}E", "S{% echoarg plain %}E", "S{% echoarg {{ x | plus: 1 }}{{ x }} %}E"}[nd.Choice(3)]
+	o1, e1 := reg(NewEngine()).ParseAndRenderString(t, b)
+	o2, e2 := reg(NewEngine().Delims(q[0], q[1], q[2], q[3])).ParseAndRenderString(c19Respell(t, q), b)
+	nd.Assert(e1 == nil && e2 == nil, "expandtagarg-no-error")
+	nd.Assert(o1 == o2, "expandtagarg-same-under-custom-delimiters")
+	nd.Reach("C19.expandtagarg")
 }
